@@ -1,5 +1,5 @@
 From Coq Require Import List String Ascii ZArith Bool Arith NArith.
-From GM Require Import Base.Result Facts.GoFacts Facts.Ana Model.Enums Model.Fields Model.Classify Model.SqlTypes Sem.GoJson Sem.TsSem Model.TsTypes.
+From GM Require Import Base.Result Facts.GoFacts Facts.Ana Model.Enums Model.Fields Model.Classify Model.SqlTypes Sem.GoJson Sem.TsSem Sem.PgSem Sem.PgSim Sem.TsSim Model.TsTypes.
 Import ListNotations.
 Local Open Scope string_scope.
 
@@ -8,18 +8,6 @@ Record c3_case := {
   c3_env : tenv;                       (* parsed from the real TypeScript file *)
   c3_docs : list (gty * json)          (* documents written by the real Go encoder *)
 }.
-
-Fixpoint texpr_eqb (a b : texpr) : bool :=
-  match a, b with
-  | TString, TString | TNumber, TNumber | TBoolean, TBoolean | TUnknown, TUnknown => true
-  | TRef x, TRef y => String.eqb x y
-  | TNullable x, TNullable y | TArr x, TArr y => texpr_eqb x y
-  | TRecord k v, TRecord k' v' => texpr_eqb k k' && texpr_eqb v v'
-  | _, _ => false
-  end.
-
-Fixpoint list_eqb {A} (f : A -> A -> bool) (a b : list A) : bool :=
-  match a, b with [], [] => true | x :: a', y :: b' => f x y && list_eqb f a' b' | _, _ => false end.
 
 Definition tdecl_eqb (a b : tdecl) : bool :=
   match a, b with
@@ -51,9 +39,26 @@ Definition chk_model (c : c3_case) : bool :=
                        | Ok (Some d) => negb (Nat.eqb (count_decl (fst d) (c3_env c)) 0)
                        | _ => true end) (ao_source (c3_ana c)).
 
+(** the premise of the global theorem of Properties/C03.v, for every type a document was written for: the pairs
+    (TypeScript expression, wire shape) reached from the type form a closed table of agreeing pairs *)
+Fixpoint dedup_gty (l : list gty) : list gty :=
+  match l with [] => [] | x :: r => if existsb (gty_eqb x) r then dedup_gty r else x :: dedup_gty r end.
+
+Definition type_table (c : c3_case) (t : gty) : option (ttable * texpr * jshape) :=
+  match ts_ref (c3_prog c) (ao_nodes (c3_ana c)) 12 t with
+  | Ok te => let sh := shape_of (c3_prog c) (ao_nodes (c3_ana c)) (c3_enums c) 12 false t in
+             Some (tbuild (c3_env c) (env_of (c3_prog c) (ao_nodes (c3_ana c)) (c3_enums c)) 14 te sh, te, sh)
+  | _ => None
+  end.
+
+Definition sim_types (c : c3_case) : bool :=
+  forallb (fun t => match type_table c t with
+                    | Some (tb, te, sh) => tsim_ok (c3_env c) (env_of (c3_prog c) (ao_nodes (c3_ana c)) (c3_enums c)) tb && tmemb tb te sh
+                    | None => false end) (dedup_gty (map fst (c3_docs c))).
+
 (** the property on the parsed file and the real documents *)
 Definition chk_prop (c : c3_case) : bool :=
-  well_formed (c3_env c)
+  well_formed (c3_env c) && sim_types c
   && forallb (fun tj => match ts_ref (c3_prog c) (ao_nodes (c3_ana c)) 12 (fst tj) with
                         | Ok t => inhabitsb (c3_env c) (2 * json_depth (snd tj) + 8) t (snd tj)
                         | _ => false end) (c3_docs c).
